@@ -1260,13 +1260,13 @@ bool StepScript(ScriptExecutionEnvironment& env, CScript::const_iterator& pc, CS
                     if (stack.size() < 1)
                         return set_error(serror, SCRIPT_ERR_INVALID_STACK_OPERATION);
                     if ((flags & SCRIPT_VERIFY_NULLDUMMY) && stacktop(-1).size()) {
-                        if (btcdeb_verbose) printf(
+                        if (btcdeb_verbose) fprintf(stderr, // (a hint is a diagnostic: stdout carries the result)
                             "\n* * * * * * *\n\n"
 
                             "Hint: with Segwit activation, the OP_CHECKMULTISIG extra argument must be set to the empty push value (0x). If you are experimenting with older scripts, you may run into a 'Dummy CHECKMULTISIG argument must be zero' error. To move past this, you need to modify the verification flags, disabling the NULLDUMMY flag specifically. I.e. call btcdeb again with -f\"-NULLDUMMY\"\n\n"
 
                             "* * * * * * *\n\n"
-                        ); else printf("Hint: with Segwit activation, the OP_CHECKMULTISIG extra argument must be empty (--verbose for details)\n");
+                        ); else fprintf(stderr, "Hint: with Segwit activation, the OP_CHECKMULTISIG extra argument must be empty (--verbose for details)\n");
                         return set_error(serror, SCRIPT_ERR_SIG_NULLDUMMY);
                     }
                     popstack(stack);
